@@ -1016,6 +1016,28 @@ func runCliArgs(c *Ctx) {
 		add("fwd", argv, dash)
 		c.Hit(fmt.Sprintf("fwd:%d-args", k))
 	}
+	// option-shaped arguments: a plain prefix (-x, --opt=, +) followed by a few shell constructs with
+	// plain text in between — what people really forward (`--exclude={a,b}`, `-p{1..3}`, `--glob=*.go`);
+	// random bytes almost never produce an argument that is special in exactly one way
+	cons := []string{"{a,b}", "{1..3}", "{x,y}z", "*", "?", "*.go", "~", "~/x", "$HOME", "${X}", "$(id)", "`id`", "[ab]", "!", "#c", "\\", "'", "\"", ";", "&", "|", ">o", "<i", "(", ")", " ", "a b", "=", "%", "^", ",", "{", "}", "{}"}
+	pres := []string{"", "-", "--", "-p", "--opt=", "--exclude=", "+", "-D"}
+	ns := c.Pick(300, 3000)
+	for i := 0; i < ns; i++ {
+		argv := []string{"fwd"}
+		k := 1 + c.Rng.Intn(3)
+		for j := 0; j < k; j++ {
+			a := pres[c.Rng.Intn(len(pres))]
+			for m := c.Rng.Intn(3); m >= 0; m-- {
+				if c.Rng.Intn(3) == 0 {
+					a += string(rune('a' + c.Rng.Intn(26)))
+				}
+				a += cons[c.Rng.Intn(len(cons))]
+			}
+			argv = append(argv, a)
+		}
+		add("fwd", argv, 1)
+		c.Hit("fwd:option-shaped")
+	}
 	nv := c.Pick(400, 3200)
 	for i := 0; i < nv; i++ {
 		argv := []string{"var", "X=" + c.qBytes(24, noTmpl)}
